@@ -17,7 +17,7 @@ theorem pStep_chain_attr (tests : List NodeTest) (pi : List Nat) (a : NodeTest) 
          ((if e.isStart then ⟨none, false⟩ :: ⟨some (0, p), false⟩ :: rest else ⟨some (0, p), false⟩ :: rest), .none)
        else if p + 1 == tests.length then
          ((if e.isStart then ⟨none, false⟩ :: ⟨some (0, p), false⟩ :: rest else ⟨some (0, p), false⟩ :: rest),
-          a.apply e ns)
+          attrResult a e ns)
        else
          ((if e.isStart then ⟨some (0, p + 1), false⟩ :: ⟨some (0, p), false⟩ :: rest
            else ⟨some (0, p), false⟩ :: rest), .none)) := by
@@ -40,7 +40,7 @@ theorem pStep_root_attr (tests : List NodeTest) (hne : tests ≠ []) (pi : List 
 /-- the result of SimplePathStrategy with a final attribute test, from the result without -/
 def gateS (t : NodeTest) (e : Event) (v : Val) : Val :=
   match v with
-  | .bool true => t.apply e ns
+  | .bool true => attrResult t e ns
   | _ => .none
 
 /-- the stack entries that occur on a context-bound chain -/
@@ -129,38 +129,25 @@ theorem simple_attr_run (tests : List NodeTest) (hne : tests ≠ []) (pi : List 
       exact ⟨⟨rfl, h2⟩, rfl⟩)
     es [] [] ⟨rfl, fun en hen => by simp at hen⟩
 
-theorem gateS_eq_gate (a : NodeTest) (hflag : a.attrFlag = true) (e : Event) (v : Val)
-    (hv : v = Val.none ∨ v = Val.bool true) : gateS ns a e v = gate (a.apply e ns) v := by
-  rcases hv with rfl | rfl
-  · simp [gateS, gate]
-  · rcases attrApply_form a hflag e ns with h | ⟨at_, hne, h⟩
-    · simp [gateS, gate, h, Val.truthy]
-    · cases at_ with
-      | nil => exact absurd rfl hne
-      | cons x xs => simp [gateS, gate, h, Val.truthy]
+theorem gateS_eq_gate' (a : NodeTest) (e : Event) (v : Val) : gateS ns a e v = gate (a.apply e ns) v := by
+  unfold gateS gate attrResult
+  cases v with
+  | bool b => cases b <;> rfl
+  | _ => rfl
+
+theorem gateS_eq_gate (a : NodeTest) (_hflag : a.attrFlag = true) (e : Event) (v : Val)
+    (_hv : v = Val.none ∨ v = Val.bool true) : gateS ns a e v = gate (a.apply e ns) v :=
+  gateS_eq_gate' ns a e v
+
+theorem gateS_fun (a : NodeTest) : gateS ns a = fun e v => gate (a.apply e ns) v := by
+  funext e v; exact gateS_eq_gate' ns a e v
 
 /-- on results that are `None` / `True` the two gates agree for attribute tests -/
-theorem zipWith_gateS (a : NodeTest) (hflag : a.attrFlag = true) : ∀ (es : List Event) (locs : List (Option LNode))
-    (mk : List Nat → Bool),
+theorem zipWith_gateS (a : NodeTest) (_hflag : a.attrFlag = true) (es : List Event) (locs : List (Option LNode))
+    (mk : List Nat → Bool) :
     List.zipWith (gateS ns a) es (markVals mk locs)
-      = List.zipWith (fun e v => gate (a.apply e ns) v) es (markVals mk locs)
-  | [], _, _ => by simp
-  | _ :: _, [], _ => by simp [markVals]
-  | e :: es, l :: ls, mk => by
-      have ih := zipWith_gateS a hflag es ls mk
-      have hm : markVals mk (l :: ls) = (match l with
-          | some m => if mk m.loc then Val.bool true else Val.none
-          | none => Val.none) :: markVals mk ls := rfl
-      rw [hm, List.zipWith_cons_cons, List.zipWith_cons_cons, ih]
-      congr 1
-      apply gateS_eq_gate ns a hflag
-      cases l with
-      | none => exact Or.inl rfl
-      | some m =>
-        simp only
-        cases mk m.loc
-        · exact Or.inl rfl
-        · exact Or.inr rfl
+      = List.zipWith (fun e v => gate (a.apply e ns) v) es (markVals mk locs) := by
+  rw [gateS_fun]
 
 end
 end Genshi.Path
